@@ -161,3 +161,50 @@ func VerifC15Handshake() {
 	lib.VerifAssert(ra.ConnectionID == rb.ConnectionID && ra.ConnectionID != "", "both ends agree on the connection id")
 	lib.VerifReach("connected")
 }
+
+// vfRecorder records what goes through one direction of a vfDuplex.
+type vfRecorder struct {
+	*vfDuplex
+	sent []byte
+}
+
+func (r *vfRecorder) Write(p []byte) (int, error) {
+	r.sent = append(r.sent, p...)
+	return r.vfDuplex.Write(p)
+}
+
+// VerifC15Replay: an eavesdropper records everything a genuine dialing node sent during a complete,
+// successful handshake (Hello, Introduce, Accept) and later presents those bytes, unchanged, to the
+// same acceptor on a new connection. The acceptor salts every session afresh, so the recording must
+// not get through.
+func VerifC15Replay() {
+	lib.VerifClockAdvance(0)
+	const cookie = "the-cookie"
+	ab, ba := make(chan []byte, 32), make(chan []byte, 32)
+	dialer := &vfRecorder{vfDuplex: &vfDuplex{rd: ba, wr: ab}}
+	acceptor := &vfDuplex{rd: ab, wr: ba}
+	ha := Create(Options{}).(*handshake)
+	hb := Create(Options{}).(*handshake)
+	na, nb := &vfHNode{name: "a@h", creation: 11}, &vfHNode{name: "b@h", creation: 22}
+	var ea error
+	var done int32
+	go func() {
+		_, ea = ha.Start(na, dialer, gen.HandshakeOptions{Cookie: cookie})
+		atomic.StoreInt32(&done, 1)
+	}()
+	_, eb := hb.Accept(nb, acceptor, gen.HandshakeOptions{Cookie: cookie})
+	for i := 0; i < 40 && atomic.LoadInt32(&done) == 0; i++ {
+		lib.VerifYield()
+		lib.VerifFireTimers()
+		lib.VerifYield()
+		time.Sleep(100 * time.Millisecond)
+	}
+	lib.VerifAssert(atomic.LoadInt32(&done) == 1 && ea == nil && eb == nil, "the genuine handshake completes")
+	recording := append([]byte{}, dialer.sent...)
+	lib.VerifAssert(len(recording) > 12, "the dialer's side of the handshake was recorded")
+	// the replay
+	w := &vfWire{in: recording}
+	res, err := hb.Accept(nb, w, gen.HandshakeOptions{Cookie: cookie})
+	lib.VerifAssert(err != nil || res.Peer == "", "a recorded handshake replayed to the acceptor does not get through")
+	lib.VerifReach("replay answered")
+}
